@@ -21,7 +21,7 @@ const (
 
 // C20: unlikely-content pruning applies only if enough content remains, else fallback.
 func C20(p *core.Program, r *core.Report) {
-	r.Explanation = "F8: pruned means deleted - when SkipUnlikelies is set, and only then, Convert removes from its clone, before the walk, every element the unlikely predicate holds for (one iteration of that pass conforms to the documented decision list: no parent -> left; role in the table -> removed; pattern, not ok-maybe, not below a table, not body, not a -> removed; else left), so that whole-subtree tests of ancestors decide without the pruned subtrees. F7: no call of the document builder in the element visitor is reachable only with SkipUnlikelies set, so a pruned element leaves no trace (no block break) and the page reads as if the subtree was deleted. F6: in the element visitor every call of the document builder for an element node is reachable only through the test of the SkipUnlikelies flag (must-pass-through), so no element is emitted ahead of the unlikely tests. F1: decision-list conformance of ContentExtractor.ExtractContent: the first pass converts with SkipUnlikelies; iff its word count is <= 499 the document AND the word count both come from a second pass with Default, otherwise both come from the first pass (phis resolved per path). F2: each pass builds a new WebDocumentBuilder and DomConverter and Convert walks a deep clone of the untouched document element. F3: in the converter's element visitor every `return false` that depends on the SkipUnlikelies flag is guarded either by the role table or by the complete class/id test (unlikely pattern, not the ok-maybe pattern, not below a table, not body, not a); the patterns and the role table are read nowhere else in the module. F5 also covers ARIA roles: a role of the unlikely-role table is compared nowhere else in the content packages. F9: the compiled word-matcher patterns of the counters count the same on tokens without CJK/Hangul characters, so choosing the counter from the whole document (pruned subtrees included) cannot change the 500-word decision."
+	r.Explanation = "F8: pruned means deleted - when SkipUnlikelies is set, and only then, Convert removes from its clone, before the walk, every element the unlikely predicate holds for (one iteration of that pass conforms to the documented decision list: no parent -> left; role in the table -> removed; pattern, not ok-maybe, not below a table, not body, not a -> removed; else left), so that whole-subtree tests of ancestors decide without the pruned subtrees. F7: no call of the document builder in the element visitor is reachable only with SkipUnlikelies set, so a pruned element leaves no trace (no block break) and the page reads as if the subtree was deleted. F6: in the element visitor every call of the document builder for an element node is reachable only through the test of the SkipUnlikelies flag (must-pass-through), so no element is emitted ahead of the unlikely tests. F1: decision-list conformance of ContentExtractor.ExtractContent: the first pass converts with SkipUnlikelies; iff its word count is <= 499 the document AND the word count both come from a second pass with Default, otherwise both come from the first pass (phis resolved per path). F2: each pass builds a new WebDocumentBuilder and DomConverter and Convert walks a deep clone of the untouched document element. F3: in the converter's element visitor every `return false` that depends on the SkipUnlikelies flag is guarded either by the role table or by the complete class/id test (unlikely pattern, not the ok-maybe pattern, not below a table, not body, not a); the patterns and the role table are read nowhere else in the module. F5 also covers ARIA roles: a role of the unlikely-role table is compared nowhere else in the content packages. F9: the compiled word-matcher patterns of the counters count the same on tokens without CJK/Hangul characters, so choosing the counter from the whole document (pruned subtrees included) cannot change the 500-word decision. F10: the word counter that feeds the 500-word comparison is chosen by SelectWordCounter from the whole text: every script test in it is on its parameter itself (no prefix, sample or transformed copy), and the extractor hands it a text rendering of the very node that becomes its documentElement."
 	r.NotCovered = "the metamorphic equalities themselves (result equals that of the page with the subtrees deleted / markers renamed); what the regular expressions match; marked elements swallowed whole by figure/table extraction."
 
 	// ---- F1
